@@ -238,7 +238,7 @@ class _NoLog(list):
         pass
 
 
-OPS = ('r', 'wx', 'wy', 'rw', 'rx', 'co', 'u1', 'u2', 'cx', 'csx', 'wa', 'mr', 'sy', 'va', 'crb')
+OPS = ('r', 'wx', 'wy', 'rw', 'rx', 'co', 'u1', 'u2', 'cx', 'csx', 'wa', 'mr', 'sy', 'va', 'crb', 'ul')
 
 
 def gen_programs(rng, nthreads=2, length=4):
@@ -330,7 +330,7 @@ def scenario(job):
                     c.close()
                     c = db.open(tm)
                     continue
-                if op in ('u1', 'u2'):
+                if op in ('u1', 'u2', 'ul'):
                     if kind != 'file':
                         continue
                     from ZODB.POSException import UndoError
@@ -342,8 +342,18 @@ def scenario(job):
                     try:
                         tmu.begin()
                         db.undoMultiple(ids, tmu.get())
+                        if op == 'ul':
+                            # meta data the storage refuses at tpc_begin: the undo transaction fails and must leave
+                            # no lock behind (the following commits would block)
+                            tmu.get().note('x' * 70000)
                         tmu.commit()
+                        if op == 'ul':
+                            raise AssertionError('an undo transaction with 70000 bytes of description was accepted')
                     except (UndoError, ConflictError):
+                        tmu.abort()
+                    except Exception as ex:
+                        if op != 'ul' or isinstance(ex, AssertionError):
+                            raise
                         tmu.abort()
                     continue
                 tm.begin()
